@@ -104,6 +104,11 @@ def rule_r1(p, res):
         good = [n for n in conv if (dotted(n.value.func) or "") in ("np.deg2rad", "numpy.deg2rad", "np.radians", "numpy.radians", "math.radians")
                 and len(n.value.args) == 1 and isinstance(n.value.args[0], ast.Name) and n.value.args[0].id == theta]
         r.check(len(conv) == 1 and len(good) == 1, f, conv[0] if conv else f.node, "%s must convert theta with np.deg2rad (found %s)" % (f.short, [norm(n) for n in conv]))
+        # nothing else may touch the angle: any other re-binding (a reduction modulo 360, a sign flip ...) changes the angle for one of the two units
+        other = [n for n in walk_own(f.node) if isinstance(n, (ast.Assign, ast.AugAssign)) and any(isinstance(t_, ast.Name) and t_.id == theta for t_ in (n.targets if isinstance(n, ast.Assign) else [n.target])) and n not in conv]
+        for n in other:
+            r.violation(f, n, "%s re-binds the angle with `%s` outside the degrees -> radians conversion: the rotation is no longer by the given signed angle in the requested unit "
+                        "(for instance a reduction modulo 360 also hits angles given in radians)" % (f.short, norm(n)[:60]))
         for n in good:
             gs = [(norm(t), pol) for t, pol in g.guards(n)]
             r.check(gs == [("degrees", True)], f, n, "the degree->radian conversion must happen exactly when `degrees` is true (guards: %s)" % gs,
@@ -560,4 +565,8 @@ WITNESSES += [
             "[np.cos(theta), 0, np.sqrt(1.0 - np.cos(theta) * np.cos(theta))], [0, 1, 0], [-np.sqrt(1.0 - np.cos(theta) * np.cos(theta)), 0, np.cos(theta)]", rule="C20.R1", construct="init_from_3d_ccw_angle_around_y", note="seeded change R3-C20-A"),
     Witness("C20.W15", "menpo/transform/tcoords.py", "", "def tcoords_to_image_coords(image_shape):", "import functools\n\n\n@functools.lru_cache(maxsize=None)\ndef tcoords_to_image_coords(image_shape):",
             rule="C20.G3", construct="tcoords_to_image_coords", note="seeded change R3-C20-C"),
+]
+
+WITNESSES += [
+    Witness("C20.W16", "menpo/transform/homogeneous/rotation.py", "Rotation.init_from_2d_ccw_angle", "    if degrees:", "    theta = theta % 360\n    if degrees:", rule="C20.R1", construct="init_from_2d_ccw_angle", note="seeded change R4-C20-A"),
 ]
